@@ -217,7 +217,8 @@ def lean_table_mass(ctx, kind, model, I, a, b):
 
 
 def kind_of(model):
-    return {2: "2d", 3: "3d"}[model._dimension]
+    # d >= 4: `mass` IS the general recursion `_mass_nd`
+    return {2: "2d", 3: "3d"}.get(model._dimension, "nd")
 
 
 # ------------------------------------------------------------------------------------------------ probes
@@ -398,6 +399,44 @@ def p_submargin(ctx, inp):
                                                   "sub": sub, "whole_line": whole, "two_d_model": two}, cls=cls)
 
 
+@guarded("c12.whole_line_nd")
+def p_whole_line_nd(ctx, inp):
+    """general recursion `_mass_nd`, any d (theorem massNd_whole_line): coordinate k over the whole line can be erased;
+    by the theorem this holds for every tail-integral family, so a difference beyond rounding is a defect of the recursion"""
+    spec, I, a, b, k = inp["spec"], inp["I"], inp["a"], inp["b"], inp["k"]
+    model = get_model(spec)
+    a2, b2 = list(a), list(b)
+    a2[k], b2[k] = -INF, INF
+    Ie, ae, be = I[:k] + I[k + 1:], list(a[:k]) + list(a[k + 1:]), list(b[:k]) + list(b[k + 1:])
+    if not Ie or all(straddles(x, y) for x, y in zip(ae, be)):
+        return                      # the erased rectangle would contain the origin (its mass is the total mass: not a number)
+    whole = mass_general(model, I, a2, b2)
+    sub = mass_general(model, Ie, ae, be)
+    sc = scale_of(model, I, a2, b2) if len(I) <= 3 else scale_of(model, Ie, ae, be) * 4
+    ctx.count("c12.whole_line_nd", inp, branch=f"d{model._dimension}:I{len(I)}")
+    if not abs(whole - sub) <= 1e-9 * sc:
+        ctx.fail("oracle", "c12.whole_line_nd", inp, {"what": "_mass_nd with one coordinate over the whole line != _mass_nd of the sub-family",
+                                                      "whole_line": whole, "sub_family": sub, "scale": sc}, cls=classify(spec, I, a2, b2))
+
+
+@guarded("c12.additivity_nd")
+def p_additivity_nd(ctx, inp):
+    """general recursion `_mass_nd`, any d and any index subset (theorem massNd_additive_split): additive under a split of
+    side k at c != 0 -- for every rectangle, also boxes containing the origin as long as the values are finite"""
+    spec, I, a, b, k, c = inp["spec"], inp["I"], inp["a"], inp["b"], inp["k"], inp["c"]
+    model = get_model(spec)
+    bl, ar = list(b), list(a)
+    bl[k], ar[k] = c, c
+    whole, left, right = mass_general(model, I, a, b), mass_general(model, I, a, bl), mass_general(model, I, ar, b)
+    ctx.count("c12.additivity_nd", inp, branch=f"d{model._dimension}:I{len(I)}")
+    if not all(math.isfinite(v) for v in (whole, left, right)):
+        return                      # origin boxes: the total-mass term is inf/NaN on both sides
+    sc = scale_of(model, I, a, b) + scale_of(model, I, a, bl) + scale_of(model, I, ar, b)
+    if not abs(whole - (left + right)) <= 1e-9 * sc:
+        ctx.fail("oracle", "c12.additivity_nd", inp, {"what": "_mass_nd(whole) != _mass_nd(left) + _mass_nd(right)", "whole": whole,
+                                                      "left": left, "right": right, "scale": sc}, cls=classify(spec, I, a, b))
+
+
 @guarded("c12.inverse_tail")
 def p_inverse_tail(ctx, inp):
     spec, i, x0 = inp["spec"], inp["i"], inp["x"]
@@ -442,7 +481,8 @@ def p_density(ctx, inp):
 
 PROBES = {"c12.model.table": p_model_table, "c12.model.exact": p_model_exact, "c12.fast_vs_general": p_fast_vs_general,
           "c12.nonneg": p_nonneg, "c12.additivity": p_additivity, "c12.margin": p_margin, "c12.submargin": p_submargin,
-          "c12.inverse_tail": p_inverse_tail, "c12.density": p_density}
+          "c12.inverse_tail": p_inverse_tail, "c12.density": p_density, "c12.whole_line_nd": p_whole_line_nd,
+          "c12.additivity_nd": p_additivity_nd}
 
 
 # ------------------------------------------------------------------------------------------------ generation
@@ -562,6 +602,45 @@ def run(ctx, oracle_only=False, factor=1):
             # inverse tail integral
             for _ in range(3):
                 p_inverse_tail(ctx, dict(spec=spec, i=rng.randrange(d), x=draw_point(rng, rng.choice([-1, 1]), exact)))
+    # --- general d: in d = 4 `mass` is the recursion `_mass_nd` itself (theorems massNd_additive_split / massNd_whole_line);
+    #     the same recursion is exercised on every index subset of the 2-d / 3-d models as well
+    for rep in range(ctx.n(6, 40) * factor):
+        d = 4
+        exact = (rep % 2 == 1)
+        spec = draw_spec(rng, d, exact)
+        I = list(range(d))
+        pats_list = [tuple(rng.choice("-+0") for _ in range(d)) for _ in range(5)] + [tuple(rng.choice("-+") for _ in range(d))]
+        for pats in pats_list:
+            if all(p == "0" for p in pats):
+                continue
+            a, b = draw_rect(rng, pats, exact)
+            inp = dict(spec=spec, I=I, a=a, b=b)
+            if not oracle_only:
+                (p_model_exact if exact else p_model_table)(ctx, inp)
+            p_nonneg(ctx, inp)
+            k = rng.randrange(d)
+            c = split_point(rng, a[k], b[k], exact)
+            p_additivity(ctx, dict(inp, k=k, c=c))
+            p_additivity_nd(ctx, dict(inp, k=k, c=c))
+            p_whole_line_nd(ctx, dict(inp, k=rng.randrange(d)))
+            Is = rng.choice(subsets(d)[d:-1])              # |I| in {2, 3}
+            ai, bi = [a[i] for i in Is], [b[i] for i in Is]
+            kk = rng.randrange(len(Is))
+            p_additivity_nd(ctx, dict(spec=spec, I=Is, a=ai, b=bi, k=kk, c=split_point(rng, ai[kk], bi[kk], exact)))
+            p_whole_line_nd(ctx, dict(spec=spec, I=Is, a=ai, b=bi, k=rng.randrange(len(Is))))
+        kq = rng.randrange(d)
+        lo, hi = draw_side(rng, rng.choice("-+"), exact, p_inf=0.2)
+        p_margin(ctx, dict(spec=spec, k=kq, a=lo, b=hi))
+    for rep in range(ctx.n(10, 80) * factor):
+        d = rng.choice([2, 3])
+        exact = rng.random() < 0.5
+        spec = draw_spec(rng, d, exact)
+        pats = tuple(rng.choice("-+0") for _ in range(d))
+        a, b = draw_rect(rng, pats, exact)
+        I = list(range(d))
+        k = rng.randrange(d)
+        p_additivity_nd(ctx, dict(spec=spec, I=I, a=a, b=b, k=k, c=split_point(rng, a[k], b[k], exact)))
+        p_whole_line_nd(ctx, dict(spec=spec, I=I, a=a, b=b, k=rng.randrange(d)))
     # --- end points / split points exactly at 0 (finding #30) -------------------------------------------------------
     for rep in range(ctx.n(40, 400) * factor):
         d = rng.choice([2, 3])
